@@ -17,8 +17,10 @@ def base_content(game, sizes, keys=4):
     nh, nl, nb, ns = sizes
     hits = [{"offset": 250.0 + 500.0 * i, "column": (i * 3 + 3) % keys} for i in range(nh)]
     hits[0]["column"] = keys - 1
+    hits[-1]["offset"] = 6000.0        # the last object, well after the last tempo point
     holds = [{"offset": 125.0 + 1000.0 * i, "column": i % (keys - 1), "length": 250.0} for i in range(nl)]
-    bpms = [{"offset": 2000.0 * i, "bpm": [120.0, 240.0, 120.0, 60.0][i], "metronome": 4} for i in range(nb)]
+    # distinct tempo values with distinct active times: the dominant one is unique
+    bpms = [{"offset": [0.0, 2000.0, 5000.0][i], "bpm": [120.0, 240.0, 90.0][i], "metronome": 4} for i in range(nb)]
     c = {"hits": hits, "holds": holds, "bpms": bpms}
     if game in ("osu", "qua"):
         c["svs"] = [{"offset": 500.0 + 1500.0 * i, "multiplier": [0.5, 2.0, 1.5][i]} for i in range(ns)]
